@@ -353,7 +353,7 @@ class PytypeRunner:
                   input=escape_ninja_path(module.full_path),
                   deps=deps,
                   imports=escape_ninja_path(imports),
-                  module=module.name))
+                  module=escape_ninja_path(module.name)))
     return output
 
   def setup_build(self):
